@@ -52,9 +52,10 @@ prop(
 prop(
     "C03",
     title="requests serialised faithfully",
-    explanation="include_request_headers equals the default-header spec function (Host first iff absent, Content-Length / Transfer-Encoding iff neither present); Request() applies the target extension only to the target; h11.Request gets exactly method/target/headers of the request; _send_event writes exactly h11's output once; one Data event per body chunk in order then exactly one EndOfMessage; a rejected head writes nothing; HTTP/2 header list and end_stream spec",
+    explanation="include_request_headers equals the default-header spec function (Host first iff absent, IP-literal bracketed, port iff not the default; Content-Length / Transfer-Encoding iff neither present); Request() applies the target extension only to the target; h11.Request gets exactly method/target/headers of the request; _send_event writes exactly h11's output once; one Data event per body chunk in order then exactly one EndOfMessage; a rejected head writes nothing; HTTP/2 header list and end_stream spec",
     trusted=[A_H11, A_H2, A_NET, A_SYNC],
-    not_decided=["the h11/h2 encoders themselves (assumed)", "re-send of a one-shot body iterator after a transparent retry (recorded finding when the pool contracts flag it)"],
+    not_decided=["the h11/h2 encoders themselves (assumed; bounded audit of the send() round trip)"],
+    bounded=["audit/h11_contract.py, audit/h2_contract.py (thorough tier)"],
     audits=[AUD_H11, AUD_H2],
 )
 prop(
@@ -74,7 +75,7 @@ prop(
     "C06",
     title="every opened stream is eventually closed",
     explanation="ownership obligations: every stream opened in a function is, on every exit path, returned, handed to a protocol connection, or closed; aclose of every class closes what it owns; the pool hands every removed, not-closed connection to _close_connections; pool.aclose empties the list into _close_connections",
-    trusted=[A_NET, A_IFACE, A_SHIELD, A_SYNC, "backends close the raw stream when start_tls fails with an Exception (stated in the stream contract; the three real backends are read, not verified)"],
+    trusted=[A_NET, A_IFACE, A_SHIELD, A_SYNC, "A-runtime.5: which exceptions socket / ssl / anyio / trio operations raise and that fail_after cancels its body (the three real back ends are verified against the stream contract on top of these)"],
 )
 prop(
     "C09",
@@ -97,7 +98,7 @@ prop(
 prop(
     "C14",
     title="at most once on the wire unless refused",
-    explanation="ConnectionNotAvailable is raised only at the HTTP/1.1 gate with nothing written (and at the HTTP/2 gates / GOAWAY branch under stream_id > last_stream_id); no read/receive function may raise it; WriteError while sending is swallowed only around the send and never re-raised; connect retries only wrap establishment; the pool loops only on ConnectionNotAvailable",
+    explanation="ConnectionNotAvailable is originated only at the HTTP/1.1 gate with nothing written, by a connection marked failed before any I/O, at the HTTP/2 gates, and by the GOAWAY check for exactly the streams above last_stream_id (0 included) before any read; every other function only passes it on; a response body never raises it; WriteError while sending is swallowed only around the send and never re-raised; connect retries only wrap establishment; the pool loops only on ConnectionNotAvailable",
     trusted=[A_H11, A_H2, A_NET, A_IFACE, A_SYNC],
     audits=[AUD_H2],
 )
@@ -112,7 +113,7 @@ prop(
 prop(
     "C16",
     title="timeouts applied to the right operations",
-    explanation="call-site preconditions: every connect/TLS start gets extensions.timeout.connect, every read .read, every write .write, the pool wait .pool; absent means None; pass-through wrappers forward their timeout argument",
+    explanation="call-site preconditions: every connect/TLS start gets extensions.timeout.connect, every read .read, every write .write, the pool wait .pool; absent means None; pass-through wrappers forward their timeout argument; SOCKS negotiation gets one of the configured values; in the three back ends every blocking runtime call runs under settimeout / fail_after of exactly the given value (trio: inf for None) and a deadline becomes the *Timeout class",
     trusted=[A_NET, A_SYNC],
     not_decided=["the instant at which PoolTimeout fires (runtime primitive, assumed)"],
 )
@@ -128,8 +129,8 @@ prop(
     title="URL / origin / default header semantics",
     explanation="enforce_bytes/enforce_headers per input kind, URL.__init__ against the RFC 3986 decomposition (assumed urllib contract), origin default ports, URL/Origin equality, bytes(URL), Request() target extension, include_request_headers spec",
     trusted=[A_STD],
-    not_decided=["round trip URL(bytes(u)) == u and well-formedness of IPv6 Host values need the inverse of the urllib contract in the string theory: bounded stand-in only"],
-    bounded=["audit/url_roundtrip.py: hypothesis search over URLs <= 64 bytes (bounded, never counted as proved)"],
+    not_decided=["round trip URL(bytes(u)) == u needs the inverse of the urllib contract in the string theory: bounded stand-in only (the Host value / bytes(URL) bracket IP-literals by the spec function authority_host, which is proved)"],
+    bounded=["audit/url_roundtrip.py: real URL / include_request_headers on the product of component pools (URLs <= 64 bytes) + 3000 seeded random tails; thorough tier; never counted as proved"],
     audits=[AUD_URL],
 )
 prop(
@@ -151,7 +152,7 @@ prop(
     title="the synchronous pool is thread-safe",
     explanation="lock-discipline obligations on the sync tree (and the async twin): every mutation of the pool's request queue and connection list, every assignment pass, and the pool reset in close() happen while the pool's thread lock is held; waiting, sending and closing happen outside it; connection state transitions (HTTP/1.1 gate and _response_closed, connect/tunnel/SOCKS establishment state) are written under their own lock; assign_to_connection/wait_for_connection hand-off order; list.remove calls are proved not to raise ValueError given the lock discipline",
     trusted=[A_NET, A_IFACE, A_SYNC, "GIL: single bytecodes are atomic; preemption inside h11/h2/threading internals not modelled"],
-    not_decided=["interleavings between lock regions are not enumerated: the obligations are the guarded_by discipline plus per-region contracts, not a schedule exploration", "HTTP/2 state machine shared by threads without a common lock (recorded finding when the HTTP/2 contracts flag it)"],
+    not_decided=["interleavings between lock regions are not enumerated: the obligations are the guarded_by discipline plus per-region contracts, not a schedule exploration", "HTTP/2 state machine shared by threads without a common lock: not modelled"],
 )
 
 prop(
